@@ -41,6 +41,7 @@ CONSTANTS Names,      \* global names, e.g. {"a","b","c"}
           MaxMods,    \* module instances created per behaviour
           MaxExt,     \* MIR_load_external calls per behaviour
           MaxToggle,  \* MIR_set_func_redef_permission calls per behaviour
+          IllMaxStep, \* modules whose construction fails (history independent) are tried only in the first IllMaxStep steps
           Depth       \* length of the behaviour
 
 VARIABLES env,        \* [Names -> Def]   the table of visible definitions ("environment module")
@@ -154,6 +155,7 @@ LoadDecls(decls, i, s, v, e, hist) ==
 
 Load(s) ==
   /\ err = "" /\ NumInst < MaxMods
+  /\ (Construct(s).err # "" => Len(h) < IllMaxStep)
   /\ LET v == nver[s] + 1
          c == Construct(s)
          r == LoadDecls(AllShapes[s], 1, s, v, env, defHist)
@@ -292,17 +294,8 @@ Shape ==
 OldBindingsStable == [][\A k \in DOMAIN bound : k \in DOMAIN bound' /\ bound'[k] = bound[k]]_vars
 
 (* ------------------------------ emission --------------------------------------------- *)
-Part == IF "PART" \in DOMAIN IOEnv THEN atoi(IOEnv.PART) ELSE 0      \* 0: everything
-NParts == IF "NPARTS" \in DOMAIN IOEnv THEN atoi(IOEnv.NPARTS) ELSE 1
-(* partition of the behaviours by their second step (keeps every JVM's output small)      *)
-StepKey(r) == IF r.a = "load" THEN r.s ELSE IF r.a = "ext" THEN 20 + r.id + (IF r.n = "a" THEN 0 ELSE IF r.n = "b" THEN 3 ELSE 6)
-              ELSE IF r.a = "permit" THEN 40 ELSE 50 + Len(r.R) + (IF r.res THEN 1 ELSE 0)
-PartOf(hh) == ((StepKey(hh[1]) * 7 + StepKey(hh[2])) % NParts) + 1
-InPart(hh) == Part = 0 \/ Len(hh) < 2 \/ PartOf(hh) = Part              \* explored in this JVM
-Mine(hh) == Part = 0 \/ (IF Len(hh) < 2 THEN Part = 1 ELSE PartOf(hh) = Part)   \* emitted by this JVM
-Bound == InPart(h)
 FinEnv == [i \in 1..Len(SetToSeq(Names)) |-> <<SetToSeq(Names)[i]>> \o DefT(env'[SetToSeq(Names)[i]])]
-Emit == Mine(h') => EmitJ([h |-> h', fin |-> FinEnv])
+Emit == EmitJ([h |-> h', fin |-> FinEnv])      \* ACTION_CONSTRAINT: evaluated on every generated transition
 (* simulation: only complete behaviours *)
 EmitEnd == (Len(h') = Depth \/ err' # "") => EmitJ([h |-> h', fin |-> FinEnv])
 =============================================================================
